@@ -113,8 +113,8 @@ def run(tier, seed):
     # ---- model checking (both specs concurrently; -coverage for the vacuity guard)
     cfg = "ExcSpec" if tier == "quick" else "ExcSpec_thorough"
     with concurrent.futures.ThreadPoolExecutor(2) as ex:
-        f1 = ex.submit(core.tlc_or_die, "ExcSpec", cfg=cfg, timeout=1200, coverage=True)
-        f2 = ex.submit(core.tlc_or_die, "ExcSpecCpp", cfg="ExcSpecCpp", timeout=1200, coverage=True)
+        f1 = ex.submit(core.tlc_or_die, "ExcSpec", cfg=cfg, timeout=1200, coverage=True, workers=4)
+        f2 = ex.submit(core.tlc_or_die, "ExcSpecCpp", cfg="ExcSpecCpp", timeout=1200, coverage=True, workers=4)
         r1, r2 = f1.result(), f2.result()
     cov["tlc"] = [dict(r1.summary(), config=cfg), dict(r2.summary(), config="ExcSpecCpp")]
     cases, cpp_cases = r1.printed, r2.printed
@@ -160,9 +160,9 @@ def run(tier, seed):
         t_mod[name] = [round(tb - t0, 1), round(time.time() - tb, 1)]
         if not b.ok:
             return b, None
-        # Every call runs in a forked copy of the driver (lib_excspec.PRELUDE obs_fork): death by signal is an observation
-        # attributed to exactly that call and costs a fork, not a restart.  The cells where the model itself predicts
-        # undefined behaviour (misuse) are the ones flagged risky for calls.run_calls.
+        # One call-table entry per case; the cells where the model itself predicts undefined behaviour (misuse) are flagged
+        # risky.  The driver-side `obs_fork` (lib_excspec.PRELUDE) executes the whole table up front in forked copies of the
+        # driver that stream their results: a death by signal is attributed to exactly one call and costs a fork.
         cl = [["obs_fork", cmap[i], bool(cs[i].get("misuse"))] for i in range(len(cs))]
         if facts:
             cl.append(["facts", []])
